@@ -8,6 +8,10 @@ use crate::interpreter::interpreter_trait::InterpreterTrait;
 pub fn run<S: InterpreterTrait>(interpreter: &mut S) -> Result<(), RuntimeError> {
     let v: &Variant = &interpreter.context()[0];
     let len: i32 = v.byte_size() as i32;
+    // the result is an INTEGER
+    if len > rusty_bit_vec::MAX_INTEGER {
+        return Err(RuntimeError::Overflow);
+    }
     interpreter
         .context_mut()
         .set_built_in_function_result(BuiltInFunction::Len, len);
